@@ -214,7 +214,7 @@ func (c *modelCheck) RunDesc(desc json.RawMessage) engine.Result {
 	res.Nontrivial = mr.TxOK > 0 && mr.TxFail > 0
 	res.Outcome = shortHash(strings.Join(mr.Res.Chain.ConsensusLog(), "\n"))
 	if len(cs.Devs) == 1 && cs.Devs[0].Slot%11 == 3 && cs.Devs[0].Choice == 2 {
-		res.Sample = sim.MustJSON(map[string]interface{}{"family": c.families[cs.Fam].Name, "deviations": descr, "tx_ok": mr.TxOK, "tx_failed": mr.TxFail, "blocks": len(h.Blocks)})
+		res.Sample = sim.MustJSON(map[string]interface{}{"family": c.families[cs.Fam].Name, "deviations": descr, "tx_ok": mr.TxOK, "tx_failed": mr.TxFail, "blocks": len(h.Blocks), "history": describeBlocks(h), "consensus_log_tail": tailOf(mr.Res.Chain.ConsensusLog(), 6)})
 	}
 	return res
 }
@@ -260,3 +260,10 @@ func modelMeta(technique, rule string, extraAssume ...string) engine.Meta {
 }
 
 func bigStr(s string) *big.Int { b, _ := new(big.Int).SetString(s, 10); return b }
+
+func tailOf(l []string, n int) []string {
+	if len(l) > n {
+		return l[len(l)-n:]
+	}
+	return l
+}
